@@ -294,6 +294,30 @@ def run_structural(case):
                     viol.append(("C12:wrapped:%s:not-reflexive" % wrap, dict(case, wrap=wrap), {}))
             except Exception:  # noqa: BLE001
                 pass
+        if name in ("copy", "other-value"):
+            # grouped pairs whose members differ (at most) in ignored fields: the differing member second, the ignored name in
+            # both members, a reserved field, a group built from a group
+            D1, D2 = rs("s/d", [["varint", "n"], ["string", "d"]], ["5", "'dd'"]), rs("s/d", [["varint", "n"], ["string", "d"]], ["6", "'dd'"])
+            shapes = {
+                "second-member": (lambda: GroupedRecord("s/g2", [fresh_copy(C), a]), lambda: GroupedRecord("s/g2", [fresh_copy(C), b]), ["n"]),
+                "both-members": (lambda: GroupedRecord("s/g3", [a, fresh_copy(D1)]), lambda: GroupedRecord("s/g3", [b, fresh_copy(D2)]), ["n"]),
+                "reserved-in-second": (lambda: GroupedRecord("s/g4", [fresh_copy(C), fresh_copy(A)]),
+                                       lambda: GroupedRecord("s/g4", [fresh_copy(C), fresh_copy(dict(A, meta={"_source": "'elsewhere'"}))]), ["_source", "_generated"]),
+                "group-of-group": (lambda: GroupedRecord("s/gg", [GroupedRecord("s/g2", [fresh_copy(C), a]), fresh_copy(D1)]),
+                                   lambda: GroupedRecord("s/gg", [GroupedRecord("s/g2", [fresh_copy(C), b]), fresh_copy(D2)]), ["n"]),
+            }
+            for sh, (mk_a, mk_b, ign) in shapes.items():
+                n += 1
+                try:
+                    ga, gb = mk_a(), mk_b()
+                    outs.append(laws(ga, gb, (), "grouped:%s" % sh, dict(case, variant=name, shape=sh), viol))
+                    cm = set_ignore("ctx", ign)
+                    try:
+                        outs.append(laws(ga, gb, ign, "grouped:%s:ignored-field-differs" % sh, dict(case, variant=name, shape=sh, ignore=ign), viol))
+                    finally:
+                        cm.__exit__(None, None, None)
+                except Exception as e:  # noqa: BLE001
+                    viol.append(("C12:grouped:%s:raises-%s" % (sh, type(e).__name__), case, {"error": repr(e)[:200]}))
     seen = set()
     v2 = [x for x in viol if not (x[0] in seen or seen.add(x[0]))]
     return {"ev": n, "h": h, "nt": True, "out": sorted(set(outs)), "viol": v2, "count": {"pairs": n}, "sample": case if int(h, 16) % 13 == 0 else None}
